@@ -26,7 +26,8 @@ def run_rules(prop: str, tier: str, repo: str | None = None, overlay: dict | Non
     results: list[RuleResult] = []
     for rule in rules_for(prop):
         res = rule(ctx)
-        res.check_floor()
+        if not res.findings:
+            res.check_floor()
         results.append(res)
     return project, results
 
